@@ -78,7 +78,7 @@ def _call(args):
 def describe_task(key):
     w = world(key)
     d = {"backend": w.backend, "qty": dict(w.qty), "module": dict(w.module), "units": {}, "has_ref": {}, "scales": {}, "ref_unit": {},
-         "operators": w.operators()}
+         "operators": w.operators(), "own": sorted(getattr(w.dump, "own_types", None) or [])}
     for q in w.qty:
         d["units"][q] = w.units(q)
         d["has_ref"][q] = w.has_ref(q)
